@@ -588,3 +588,6 @@ def check_sites(F, rep, rule, entries, floor):
 def a6(ctx, rep):
     F = ctx.lib
     check_sites(F, rep, "A6", [PC + "expand_zlib_chunks", PC + "recreated_zlib_chunks"], 20)
+    # A12: partial operations (division, remainder, ilog) under the same two entries need a non-zero constant or a proof
+    from . import lin as _lin
+    _lin.x9(ctx, rep, "A12", [PC + "expand_zlib_chunks", PC + "recreated_zlib_chunks"])
